@@ -303,7 +303,14 @@ def dataset_like(sample_dataset: xarray.Dataset, new_dataset: xarray.Dataset) ->
     _update_no_clobber(sample_dataset.encoding, like_dataset.encoding)
     for key, sample_variable in sample_dataset.variables.items():
         new_variable = like_dataset.variables[key]
-        _update_no_clobber(sample_variable.attrs, new_variable.attrs)
+        # Attributes that the new variable carries in its encoding
+        # (such as `_FillValue` or `units` after xarray has decoded the variable)
+        # must not also appear in its attributes, else the dataset can not be saved.
+        sample_attrs = {
+            attr: value for attr, value in sample_variable.attrs.items()
+            if attr not in new_variable.encoding
+        }
+        _update_no_clobber(sample_attrs, new_variable.attrs)
         _update_no_clobber(sample_variable.encoding, new_variable.encoding)
 
     # Done!
